@@ -140,9 +140,12 @@ fn degenerate(t: &Ty) -> bool {
 
 #[derive(Clone, Copy, PartialEq, Eq, Debug)]
 enum Num {
-    /// rustc: explicit, else previous + 1, first 0 (enums with catch-all: the macro's numbering, the only one observable)
+    /// rustc: explicit, else previous + 1, first 0. Since the fix of parse_enum.rs this is also the macro's numbering
+    /// (read side, and write side of catch-all enums).
     Rustc,
-    /// the macro's read side: accumulator starts at 0, implicit = accumulator + 1, alternatives advance it
+    /// the macro's read side BEFORE the fix (accumulator started at 0, implicit = accumulator + 1, alternatives advanced
+    /// it). Kept only as a classifier: a deviation explained by it is a regression of the fixed defect and is reported
+    /// under the stable key `c19/implicit-enum-discriminant`.
     Macro,
 }
 
@@ -157,7 +160,7 @@ fn has_implicit(e: &EnumTy) -> bool {
 /// Discriminant of every declared variant (index = declaration order).
 fn primary_discs(e: &EnumTy, num: Num) -> Vec<i128> {
     let mut out = Vec::new();
-    if num == Num::Macro || has_catch_all(e) {
+    if num == Num::Macro {
         let mut acc = 0i128;
         for v in &e.variants {
             let d = v.disc.unwrap_or(acc + 1);
@@ -450,7 +453,7 @@ fn enum_compiles(e: &EnumTy) -> bool {
         next = d + 1;
     }
     // literals the macro pastes into match arms
-    read_arms(e, Num::Macro).iter().all(|(_, d)| *d >= lo && *d <= hi)
+    read_arms(e, Num::Rustc).iter().all(|(_, d)| *d >= lo && *d <= hi)
 }
 
 /// The write half of the struct derive computes `2u16.pow(width)` for u8/bool and single-byte fields.
@@ -1308,7 +1311,7 @@ fn gen_val(rng: &mut Rng, t: &Ty, small_w: Option<u64>) -> Val {
             }
             if e.variants[i].catch_all {
                 let (lo, hi) = repr_range(&e.repr);
-                let arms = read_arms(e, Num::Macro);
+                let arms = read_arms(e, Num::Rustc);
                 if !arms.is_empty() && rng.chance(1, 8) {
                     Val::Catch(rng.pick(&arms).1) // not canonical
                 } else if let Some(w) = small_w.filter(|w| *w < 8 && rng.chance(5, 6)) {
@@ -1513,7 +1516,11 @@ fn fixed_corpus_subjects() -> Vec<&'static str> {
 
 fn fixed_corpus_lines() -> Vec<&'static str> {
     vec![
-        // witnesses of the known finding c19/implicit-enum-discriminant
+        // witnesses of the former defect c19/implicit-enum-discriminant (fixed in parse_enum.rs): they must round-trip now
+        "c19 rt e(u8;1/5/6;_) v1",
+        "c19 unpack e(u8;1/5/6;_) 02",
+        "c19 unpack e(u8;1/5/6;_) 07",
+        "c19 rt e(u8;_;_c) v0",
         "c19 rt e(u8;_;_;_) v0",
         "c19 rt e(u8;_;_;_) v1",
         "c19 rt e(u8;_;_;_) v2",
@@ -1996,7 +2003,7 @@ fn hit_subject(t: &Ty, rep: &mut Report) {
             if has_catch_all(e) { rep.hit("enum:catch_all"); }
             if e.variants.iter().any(|v| v.default) { rep.hit("enum:default"); }
             if e.variants.iter().any(|v| v.disc.map_or(false, |d| d < 0)) { rep.hit("enum:negative-disc"); }
-            let arms = read_arms(e, Num::Macro);
+            let arms = read_arms(e, Num::Rustc);
             let mut seen = BTreeSet::new();
             if arms.iter().any(|(_, d)| !seen.insert(*d)) { rep.hit("enum:colliding-arms"); }
         }
